@@ -246,7 +246,9 @@ impl GenericsAnalyzer {
 
         for (index, param) in generic_params.iter().enumerate() {
             if index != matching_index && !(matches!(param, &syn::GenericParam::Lifetime(_))) {
-                self.trait_generics.params.push(param.clone());
+                self.trait_generics
+                    .params
+                    .push(lifted_param(param, generics));
             }
         }
 
@@ -338,29 +340,6 @@ impl GenericsAnalyzer {
     /// Move a where predicate of the fn to the trait, unless it mentions one of the fn's
     /// lifetime parameters: those stay on the method, and so must the predicate.
     fn lift_where_predicate(&mut self, predicate: &syn::WherePredicate, generics: &syn::Generics) {
-        fn mentions_lifetime_param(stream: proc_macro2::TokenStream, generics: &syn::Generics) -> bool {
-            let mut after_tick = false;
-            for token in stream {
-                match token {
-                    proc_macro2::TokenTree::Punct(punct) => after_tick = punct.as_char() == '\'',
-                    proc_macro2::TokenTree::Ident(ident) => {
-                        if after_tick && generics.lifetimes().any(|lt| lt.lifetime.ident == ident) {
-                            return true;
-                        }
-                        after_tick = false;
-                    }
-                    proc_macro2::TokenTree::Group(group) => {
-                        if mentions_lifetime_param(group.stream(), generics) {
-                            return true;
-                        }
-                        after_tick = false;
-                    }
-                    proc_macro2::TokenTree::Literal(_) => after_tick = false,
-                }
-            }
-            false
-        }
-
         if !mentions_lifetime_param(quote::ToTokens::to_token_stream(predicate), generics) {
             self.trait_generics.where_predicates.push(predicate.clone());
         }
@@ -374,7 +353,9 @@ impl GenericsAnalyzer {
         for param in &generics.params {
             match param {
                 syn::GenericParam::Type(_) => {
-                    self.trait_generics.params.push(param.clone());
+                    self.trait_generics
+                        .params
+                        .push(lifted_param(param, generics));
                 }
                 syn::GenericParam::Const(_) => {
                     self.trait_generics.params.push(param.clone());
@@ -391,6 +372,51 @@ impl GenericsAnalyzer {
 
         Ok(deps)
     }
+}
+
+/// Whether the tokens mention one of the lifetime parameters of the fn
+pub(crate) fn mentions_lifetime_param(
+    stream: proc_macro2::TokenStream,
+    generics: &syn::Generics,
+) -> bool {
+    let mut after_tick = false;
+    for token in stream {
+        match token {
+            proc_macro2::TokenTree::Punct(punct) => after_tick = punct.as_char() == '\'',
+            proc_macro2::TokenTree::Ident(ident) => {
+                if after_tick && generics.lifetimes().any(|lt| lt.lifetime.ident == ident) {
+                    return true;
+                }
+                after_tick = false;
+            }
+            proc_macro2::TokenTree::Group(group) => {
+                if mentions_lifetime_param(group.stream(), generics) {
+                    return true;
+                }
+                after_tick = false;
+            }
+            proc_macro2::TokenTree::Literal(_) => after_tick = false,
+        }
+    }
+    false
+}
+
+/// A type or const parameter of the fn as a parameter of the trait. A bound that mentions
+/// one of the fn's lifetime parameters stays on the method, where that lifetime is declared.
+fn lifted_param(param: &syn::GenericParam, generics: &syn::Generics) -> syn::GenericParam {
+    let mut param = param.clone();
+    if let syn::GenericParam::Type(type_param) = &mut param {
+        type_param.bounds = std::mem::take(&mut type_param.bounds)
+            .into_iter()
+            .filter(|bound| {
+                !mentions_lifetime_param(quote::ToTokens::to_token_stream(bound), generics)
+            })
+            .collect();
+        if type_param.bounds.is_empty() {
+            type_param.colon_token = None;
+        }
+    }
+    param
 }
 
 fn extract_trait_bounds(
